@@ -2,8 +2,10 @@ import Ypv.Model.Merge
 /-!
 # Declarative reading of the merge policies (the option docstrings of `merger/enums/*.py`)
 
-Only data: what the merged value is, by kind pair and policy.  Key order of merged mappings is
-specified separately (`OrderOK`), and only as far as the property statement goes.
+What the merged value is, by kind pair and policy: arrays and sets as functions (`arrayMerge`,
+`setMerge`), deep hash merges per key (`Merged`), Array-of-Hashes DEEP merges per right-hand record
+(`AohStep` / `AohDeep`, `KeysGrow`).  Key order of merged mappings is specified separately
+(`OrderOK`), and only as far as the property statement goes.
 -/
 namespace Ypv.Merge.Spec
 
